@@ -266,3 +266,14 @@ Example C04_two_hops_one_byte :
   map uo_res obs = [UOk 0; UOk 1; UOk 0; UOk 0; UOk 1] /\
   m_stor (s "foo/bar") st' (hash [97%N]) = [Some [97%N]].
 Proof. vm_compute. split; reflexivity. Qed.
+
+(* PushBlobChunked: the chunk size of the writer is the larger of the caller's hint (64 KiB
+   when the hint is not positive) and the minimum the registry announces (DESIGN C04.3) *)
+Theorem C04_chunk_size :
+  forall (S I : Type) (srv : S -> request I -> S * response I) st repo hint st' i rg m,
+  srv st (QStart repo) = (st', upload_response 202 repo i rg (fmt_int m)) -> in_int64 m = true ->
+  exists w, client_start srv st repo hint = (st', Ok w) /\
+    w_chunksize w = Z.max (if hint <=? 0 then DEFAULT_CHUNK else hint) m /\
+    w_size w = 0 /\ w_flushed w = 0 /\ w_chunk w = [] /\ w_loc w = LUpload repo i.
+Proof. intros S I srv. exact (client_start_chunksize srv). Qed.
+Print Assumptions C04_chunk_size.
